@@ -357,4 +357,140 @@ example : autoFilter 4 [(1, 1), (2, 0)] [2, 3] = 5 :=
 example : physOk (cond exCfg) [1, 1, 0] = decide (exCfg.userFilter ≤ (removeModes [1] [1, 1, 0]).sum) :=
   (filter_includes_heralds exCfg exWF [1, 1, 0] rfl (by decide)).2
 
+/-! ### declaration order of the heralds -/
+
+/-- **herald_order_irrelevant** (inputs).  The order in which the heralds are declared (`add_herald` calls, insertion
+order of the `heralds` dict) changes neither the mask string pushed to the engine, nor the full input
+`with_input` builds, nor the automatic filter, nor the number of herald photons added to the filter. -/
+theorem herald_order_irrelevant (m : ℕ) (h h' : List (ℕ × ℕ)) (hp : h.Perm h') (hnd : (h.map (·.1)).Nodup)
+    (user : Fock) :
+    heraldMask m h = heraldMask m h' ∧ interleave m h user = interleave m h' user ∧
+    autoFilter m h user = autoFilter m h' user ∧ nHeralds h = nHeralds h' := by
+  have e := heraldMask_perm m hp hnd
+  refine ⟨e, ?_, ?_, nHeralds_perm hp⟩
+  · simp [interleave, e]
+  · simp [autoFilter, interleave, e, nHeralds_perm hp]
+
+/-- the specification-side condition does not depend on the declaration order either -/
+theorem cond_herald_order (c : Cfg) (h' : List (ℕ × ℕ)) (hp : c.heralds.Perm h') :
+    physOk (cond { c with heralds := h' }) = physOk (cond c) ∧
+    logicOk (cond { c with heralds := h' }) = logicOk (cond c) ∧
+    reported (cond { c with heralds := h' }) = reported (cond c) := by
+  refine ⟨?_, ?_, ?_⟩
+  · funext t
+    simp only [physOk, cond, minFilter, nHeralds_perm hp]
+    rfl
+  · funext t
+    simp only [logicOk, cond, heraldsOk]
+    rw [hp.all_eq]
+  · funext t
+    simp only [reported, cond, removeModes]
+    have : ∀ i : ℕ, (h'.map (·.1)).contains i = (c.heralds.map (·.1)).contains i := by
+      intro i
+      rw [Bool.eq_iff_iff]
+      simp only [List.contains_iff_mem]
+      exact ((hp.map _).mem_iff).symm
+    simp only [this]
+    rfl
+
+/-- **probsSvd_herald_order.**  Whatever the order in which the same heralds were declared, `probs_svd` returns
+the same distribution (as a list) and the same two performances. -/
+theorem probsSvd_herald_order (eng : Fock → D) (c : Cfg) (h' : List (ℕ × ℕ)) (members : List Member)
+    (hp : c.heralds.Perm h') (wf : HeraldsWF c.m c.heralds) (he : EngOK eng c.m members) (hmix : MixOK members)
+    (hret : mass (retained (cond c) (full eng c.m members)) ≠ 0) :
+    (probsSvd eng { c with heralds := h' } members).results = (probsSvd eng c members).results ∧
+    (probsSvd eng { c with heralds := h' } members).phys = (probsSvd eng c members).phys ∧
+    (probsSvd eng { c with heralds := h' } members).logical = (probsSvd eng c members).logical := by
+  obtain ⟨e1, e2, e3⟩ := cond_herald_order c h' hp
+  have wf' : HeraldsWF c.m h' :=
+    ⟨(hp.map _).nodup_iff.mp wf.nodup, fun p hp' => wf.inRange p (hp.symm.subset hp')⟩
+  have hr : retained (cond { c with heralds := h' }) (full eng c.m members) =
+      retained (cond c) (full eng c.m members) := by
+    simp only [retained, e1, e2]
+  have hret' : mass (retained (cond { c with heralds := h' }) (full eng c.m members)) ≠ 0 := by rwa [hr]
+  refine ⟨?_, ?_, ?_⟩
+  · rw [condition_spec eng c members wf he hmix hret,
+      condition_spec eng { c with heralds := h' } members wf' he hmix hret']
+    simp only [conditioned, hr, e3]
+  · rw [physical_perf_spec eng c members he hmix, physical_perf_spec eng { c with heralds := h' } members he hmix]
+    simp only [physPerf, e1]
+  · rw [logical_perf_spec eng c members wf he hmix,
+      logical_perf_spec eng { c with heralds := h' } members wf' he hmix]
+    simp only [logicalPerf, physPerf, hr, e1]
+    rfl
+
+/-! ### detectors -/
+
+/-- the detector stage moves probability between detected patterns, it neither creates nor loses any -/
+theorem detect_mass (Ks : List Kern) (d : D) (hK : KernsNormed Ks) : mass (detect Ks d) = mass d :=
+  mass_detect Ks d hK
+
+/-- `Simulator.probs_svd` with detectors that are all PNR (or absent) takes the mask path of `probs_svd` -/
+theorem probsSvdDet_pnr (eng : Fock → D) (c : Cfg) (ds : List Det) (members : List Member)
+    (hp : allPnr ds = true) :
+    probsSvdDet eng c ds members = probsSvd eng { c with pnr := true } members := by
+  simp [probsSvdDet, hp]
+
+/-- …and the distribution of detected patterns is the unconditioned distribution itself (as a list) -/
+theorem detectedFull_pnr (eng : Fock → D) (c : Cfg) (ds : List Det) (members : List Member)
+    (hp : allPnr ds = true) (hl : ds = [] ∨ ds.length = c.m) (he : EngOK eng c.m members) :
+    detectedFull eng c.m ds members = full eng c.m members := by
+  unfold detectedFull
+  split
+  · rfl
+  · next hne =>
+    have hlen : ds.length = c.m := by
+      rcases hl with h | h
+      · simp [h] at hne
+      · exact h
+    exact detect_pnr ds hp _ (fun p hp' => by rw [hlen]; exact full_keys eng c.m members he.shape p hp')
+
+/-- **condition_spec_pnr_detectors.**  With photon-number-resolving detectors everywhere the answer is the
+conditioning of the distribution of detected patterns — the statement of `condition_spec`, `physical_perf_spec`,
+`logical_perf_spec` read on `detectedFull`.  (For layouts containing a threshold / pseudo-PNR detector the
+code-shaped model `probsSvdDet` is only *validated* against `detectedFull` by the correspondence.) -/
+theorem condition_spec_pnr_detectors (eng : Fock → D) (c : Cfg) (ds : List Det) (members : List Member)
+    (hp : allPnr ds = true) (hl : ds = [] ∨ ds.length = c.m)
+    (wf : HeraldsWF c.m c.heralds) (he : EngOK eng c.m members) (hmix : MixOK members)
+    (hret : mass (retained (cond c) (detectedFull eng c.m ds members)) ≠ 0) :
+    (probsSvdDet eng c ds members).results = conditioned (cond c) (detectedFull eng c.m ds members) ∧
+    (probsSvdDet eng c ds members).phys = physPerf (cond c) (detectedFull eng c.m ds members) ∧
+    (probsSvdDet eng c ds members).logical = logicalPerf (cond c) (detectedFull eng c.m ds members) := by
+  rw [detectedFull_pnr eng c ds members hp hl he] at hret ⊢
+  rw [probsSvdDet_pnr eng c ds members hp]
+  exact ⟨condition_spec eng { c with pnr := true } members wf he hmix hret,
+    physical_perf_spec eng { c with pnr := true } members he hmix,
+    logical_perf_spec eng { c with pnr := true } members wf he hmix⟩
+
+/-- the mask is *not* harmless next to a threshold detector: were the herald mask used (`pnr := true`) while a
+data mode is read by a threshold detector, the physical performance would be that of the herald-compatible
+outputs only.  Identity circuit on 2 modes, herald 1 on mode 0, threshold on mode 1, filter 1 (threshold 2 with the
+herald), input `|1,2>` with probability 1/2 and `|0,2>` with 1/2: the detected pattern has at most 1 + 1 photons,
+so the filter passes with probability 1/2 — which is what the mask-free detector path reports. -/
+example :
+    (probsSvdDet idEng { m := 2, heralds := [(0, 1)], ps := .tt, userFilter := 1, keepHeralds := false, pnr := true }
+      [.none, .thr] [⟨1/2, [[1, 2]]⟩, ⟨1/2, [[0, 2]]⟩]).phys = 1/2 := by
+  simp [probsSvdDet, allPnr, Det.isPnr, physInputs, minFilter, nHeralds, Member.n, kept, memberDist, convAll,
+    groupDist, canUseMask, idEng, mix, scale, conv, zeros, fadd, List.replicate, mass, normalize, detect,
+    detectState, Det.kern, restrict]
+  norm_num
+
+example : heraldMask 4 [(2, 0), (1, 1)] = heraldMask 4 [(1, 1), (2, 0)] ∧
+    interleave 4 [(2, 0), (1, 1)] [2, 3] = [2, 1, 0, 3] := by decide
+
+example : (probsSvd idEng { exCfg with heralds := [(1, 1)] } exMembers).results = (probsSvd idEng exCfg exMembers).results :=
+  (probsSvd_herald_order idEng exCfg [(1, 1)] exMembers (List.Perm.refl _) exWF exEng exMix exRet).1
+
+example : mass (detect ([Det.thr, Det.none].map Det.kern) [([2, 1], 1/2), ([0, 3], 1/2)]) = 1 := by
+  rw [detect_mass]
+  · norm_num [mass]
+  · intro K hK k
+    simp only [List.map_cons, List.map_nil, List.mem_cons, List.not_mem_nil, or_false] at hK
+    rcases hK with rfl | rfl <;> simp [Det.kern]
+
+example : (probsSvdDet idEng exCfg [.pnr, .none, .pnr] exMembers).results =
+    conditioned (cond exCfg) (detectedFull idEng exCfg.m [.pnr, .none, .pnr] exMembers) :=
+  (condition_spec_pnr_detectors idEng exCfg [.pnr, .none, .pnr] exMembers (by decide) (Or.inr rfl) exWF exEng exMix
+    (by rw [detectedFull_pnr idEng exCfg _ exMembers (by decide) (Or.inr rfl) exEng]; exact exRet)).1
+
 end PM.C04
